@@ -126,8 +126,11 @@ func runGCase(c *GCase) {
 			dirty = false
 		case "remove":
 			t, k, gr := nodeKeyOf(poolID(op.U))
+			had := g.HasNode(t, k, gr)
 			g.RemoveProvider(t, k, gr)
-			dirty = false
+			if had {
+				dirty = false // (removing what is not there is a no-op: bulk additions before it stay unrefreshed)
+			}
 		case "clear":
 			g.Clear()
 			dirty = false
@@ -260,6 +263,31 @@ func genGraphCases(prop string, seed int64, n int, thorough bool) []GCase {
 					ds = append(ds, rnd.Intn(np))
 				}
 				return ds
+			}
+			if i%6 == 1 {
+				// a long chain with shortcuts (depths are longest paths: a node reached again by a longer path after it
+				// has been processed must pass the new depth on), added in any order
+				np = 5 + rnd.Intn(3)
+				c.NPool = np
+				chain := rnd.Perm(np)
+				adj := make([][]int, np)
+				for j := 1; j < np; j++ {
+					adj[chain[j]] = append(adj[chain[j]], chain[j-1])
+				}
+				for k := 1 + rnd.Intn(3); k > 0; k-- {
+					hi := 2 + rnd.Intn(np-2)
+					lo := rnd.Intn(hi - 1)
+					adj[chain[hi]] = append(adj[chain[hi]], chain[lo])
+				}
+				for _, u := range rnd.Perm(np) {
+					c.Ops = append(c.Ops, GOp{Kind: "deferred", U: u, Deps: adj[u]})
+				}
+				c.Ops = append(c.Ops, GOp{Kind: "detect"})
+				if rnd.Intn(2) == 0 {
+					c.Ops = append(c.Ops, GOp{Kind: "remove", U: chain[np-1]})
+				}
+				cases = append(cases, c)
+				continue
 			}
 			if i%3 == 2 {
 				// a graph that is checked, repaired by taking nodes away, and checked again after each removal: what an
